@@ -364,7 +364,10 @@ static std::vector<Op> enum_alphabet(bool with_fetch, bool reduced) {
         int other = 1 - k;
         std::vector<std::vector<int>> Ts = {{}, {k}, {other}, {2}, {other, 2}};
         if (reduced) Ts.erase(Ts.begin() + 1);      // own key listed explicitly: only in the full alphabet
-        for (auto &T : Ts) for (long long dl : {-1LL, 0LL, 1LL, 1000LL}) { Op o; o.kind = STORE; o.key = k; o.trigs = T; o.dl = dl; o.vlen = 3; A.push_back(o); }
+        for (auto &T : Ts) for (long long dl : {-1LL, 0LL, 1LL, 1000LL}) {
+            if (reduced && dl == 1) continue;         // now+1 equals "now" one tick later: only in the full alphabet
+            Op o; o.kind = STORE; o.key = k; o.trigs = T; o.dl = dl; o.vlen = 3; A.push_back(o);
+        }
     }
     for (int t = 0; t < 3; t++) { Op o; o.kind = RISE; o.key = t; A.push_back(o); }
     for (int k = 0; k < 2; k++) { Op o; o.kind = REMOVE; o.key = k; A.push_back(o); }
@@ -400,6 +403,7 @@ static bool enumerate(int backend, int seg_kib, int limit, int depth, long strid
 
 // regression cases kept in replays/C07/*.case are run by props/c07.py through --replay
 int main(int argc, char **argv) {
+    VR.max_samples = 3;      // the evidence keeps 12 samples in all: leave room for several units
     GenCfg g; g.backend = (int)vr::envl("C07_BACKEND", 0); g.seg_kib = g.backend ? (int)vr::envl("C07_SEG_KIB", 262144) : 0;
     std::vector<std::unique_ptr<vr::PropBase>> props;
     props.push_back(vr::prop<Case>("base", gen_base(g), run_base));
